@@ -723,7 +723,10 @@ def gen_mut(rng, big):
             else:
                 # (with several inputs the model has to know whether the call changes anything: a relative lock of 0 on an
                 #  input that is already final changes nothing and nothing goes stale)
-                steps = [st[:-2] + '/1' if st.startswith('lr') and st.endswith('/0') else st for st in steps]
+                #  input that is already final, or the value the input already has, changes nothing and nothing goes stale:
+                #  in chains that can have several inputs every relative lock gets a value of its own)
+                steps = [('lrb/0/%d' % (100 + j) if st.startswith('lrb') else 'lrt/0/%d' % (512 * (100 + j)))
+                         if st.startswith('lr') else st for j, st in enumerate(steps)]
         cs.append(Case('resign_ops_random', 'mut %s %s %s' % (mut_shape(shape), rng.choice(MUT_CFGS), ';'.join(steps))))
     return cs
 
